@@ -278,7 +278,7 @@ class Program:
 
     def _index(self):
         import pickle
-        key = tuple(sorted((c, os.path.getsize(mf.path), os.stat(mf.path).st_mtime_ns) for c, mf in self.files.items()))
+        key = ('v2',) + tuple(sorted((c, os.path.getsize(mf.path), os.stat(mf.path).st_mtime_ns) for c, mf in self.files.items()))
         cpath = os.path.join(os.path.dirname(next(iter(self.files.values())).path), 'fnindex.pickle') if self.files else None
         if cpath and os.path.exists(cpath):
             try:
@@ -349,6 +349,11 @@ class Program:
                     m = re.match(r'^(?:const|static mut|static) (.*?): (.*?) = (.*)$', hdr)
                     if m:
                         nm = m.group(1).strip()
+                        if '<impl at ' in hdr and nm.count('<') != nm.count('>'):
+                            # associated constant `const path::<impl at file:l:c: l:c>::NAME: TY = ..`: the span holds `: ` itself
+                            m2 = re.match(r'^(?:const|static mut|static) (.*?<impl at [^>]*>(?:::[\w\[\]]+)+): ', hdr)
+                            if m2:
+                                nm = m2.group(1).strip()
                         self.const_items.setdefault(nm.split('::')[-1], []).append((nm, mf, idx, hdr))
 
     def func(self, e):
@@ -770,7 +775,7 @@ class Interp:
                 v = fifo_take(fr, sp)
                 if v is not None:
                     return v
-            return Closure(sp, [])
+            return Closure(sp, [], self.fn_names[-1] if self.fn_names else None)
         if name.startswith('ZeroSized: '):
             name2 = name[11:]
             v = FnItem(name2)
@@ -796,6 +801,20 @@ class Interp:
                          if sn.endswith('::' + nrm(it[0])) or nrm(it[0]).endswith('::' + sn)]
             if len(items) != 1:
                 raise Inconclusive('promoted constant %s not found uniquely (%d)' % (name, len(items)))
+        if items and not m and not any(it[0] == name.strip() for it in items):
+            # associated constant: referenced as `Type::NAME`, defined as `<impl at ..>::NAME`; pick the impl whose self type is Type
+            segs = [x.strip() for x in strip_generics(name).split('::') if x.strip()]
+            owner = segs[-2] if len(segs) >= 2 else None
+            assoc = []
+            for it_ in items:
+                mm_ = re.search(r'<impl at ([^>]*?):(\d+):(\d+): (\d+):(\d+)>', it_[0])
+                if mm_ and owner:
+                    tr, sb = self.prog.impl_info((mm_.group(1), int(mm_.group(2)), int(mm_.group(3)), int(mm_.group(4)), int(mm_.group(5))))
+                    if sb and sb.lstrip('&') == owner:
+                        assoc.append(it_)
+            if len({a[3] for a in assoc}) == 1 and assoc:
+                items = [assoc[0]]
+                m = True
         if items:
             cands = (items if m else None) or [it for it in items if it[0] == name.strip()] or \
                     [it for it in items if strip_generics(it[0]).split('::')[-1] == simple and
